@@ -177,13 +177,20 @@ Section Layered.
     map (layer_val g lname s im p) (zrange 0 (g_nz g)).
 
   (* ---- merge=True ------------------------------------------------------- *)
-  (* diff = zeros(nz); for v in props: diff += abs(np.diff(np.r_[-1, v]));
-     ind = diff.nonzero()[0] *)
+  (* diff = zeros(nz); diff[0] = 1.0;
+     for v in props: diff[1:] += abs(np.diff(v));   ind = diff.nonzero()[0]
+     [mdiff props k] for k >= 1 is diff[k]; [prevv v 0] = -1 is the sentinel of
+     the code as found (np.r_[-1, v]), used only by [merge_ind_unfixed]. *)
   Definition prevv (v : list F) (k : nat) : F :=
     match k with 0%nat => - (1) | Datatypes.S k' => nth k' v 0 end.
   Definition mdiff (props : list (list F)) (k : nat) : F :=
     sumL (map (fun v => fabs (nth k v 0 - prevv v k)) props).
+  Definition merge_keep (props : list (list F)) (k : nat) : bool :=
+    match k with 0%nat => true | Datatypes.S _ => nonzero (mdiff props k) end.
   Definition merge_ind (nz : nat) (props : list (list F)) : list nat :=
+    filter (merge_keep props) (seq 0 nz).
+  (* UNFIXED variant (before the repair): diff += abs(np.diff(np.r_[-1, v])) *)
+  Definition merge_ind_unfixed (nz : nat) (props : list (list F)) : list nat :=
     filter (fun k => nonzero (mdiff props k)) (seq 0 nz).
   (* props = {k: v[ind]};  hz = np.diff(np.r_[nodes_z[ind], nodes_z[-1]]) *)
   Definition take_ind (ind : list nat) (v : list F) : list F :=
@@ -251,6 +258,19 @@ Section Layered.
         end
     end.
 
+  (* ---- receiver positions -------------------------------------------------- *)
+  Definition pt3 : Type := (F * F * F)%type.
+  Definition xy (p : pt3) : F * F := (fst (fst p), snd (fst p)).
+  (* a receiver: (relative flag, centre);  rec.center_abs(src):
+     source.center + self.center if relative else self.center *)
+  Definition rcv : Type := (bool * pt3)%type.
+  Definition rec_abs (srcc : pt3) (r : rcv) : pt3 :=
+    let c := snd r in
+    if fst r then (fst (fst srcc) + fst (fst c), snd (fst srcc) + snd (fst c), snd srcc + snd c)
+    else c.
+  (* UNFIXED variant (before the repair): rec.center, the flag ignored *)
+  Definition rec_abs_unfixed (srcc : pt3) (r : rcv) : pt3 := snd r.
+
   (* ---- _get_points(method, src, rec) -------------------------------------- *)
   Definition get_points (method : string) (src rec : F * F) : string * (F * F) * (F * F) :=
     if String.eqb method "source" then ("midpoint"%string, src, src)
@@ -276,12 +296,13 @@ Section Layered.
     Variable ellipse : F * F -> F * F -> Z -> Z -> bool. (* mask oracle *)
     Variable method : string.
     Variable has_radius merge : bool.
-    Variable srcc : F * F.                               (* src.center[:2] *)
+    Variable srcc : pt3.                                 (* src.center *)
     Variable freqs : list F.
     (* _empymod_fwd(cond_h, cond_v, {..., rec, mrec, depth, freqtime, epermH, mpermH}):
-       receiver (index into the receiver dict), depth, cond_h, cond_v, epermH,
+       receiver (index into the receiver dict: orientation, type), its ABSOLUTE
+       centre (rec.coordinates_abs(src)), depth, cond_h, cond_v, epermH,
        mpermH, frequencies -> one response per frequency *)
-    Variable bipole : nat -> list F -> list F -> option (list F) ->
+    Variable bipole : nat -> pt3 -> list F -> list F -> option (list F) ->
                       option (list F) -> option (list F) -> list F -> list D.
 
     (* position of a property in model._def_properties *)
@@ -289,8 +310,8 @@ Section Layered.
     Definition pos_mu : nat := if vti then 2%nat else 1%nat.
     Definition pos_eps : nat := ((if vti then 2 else 1) + (if has_mu then 1 else 0))%nat.
 
-    Definition extract_for (rc : F * F) : xerr + ext :=
-      let '(mth, p0, p1) := get_points method srcc rc in
+    Definition extract_for (rc : rcv) : xerr + ext :=
+      let '(mth, p0, p1) := get_points method (xy srcc) (xy (rec_abs srcc rc)) in
       extract_1d g lname props ellipse mth has_radius p0 (Some p1) merge.
 
     Definition cond_h_of (e : ext) : list F := map backward (nth 0 (e_props e) []).
@@ -309,18 +330,18 @@ Section Layered.
       end.
 
     (* forward: one row of `out` (None = the NaN it was initialised with) *)
-    Definition fwd_row (i : nat) (rc : F * F) (obs_fin : option (list bool))
+    Definition fwd_row (i : nat) (rc : rcv) (obs_fin : option (list bool))
       : xerr + list (option D) :=
       let fi := mask_of obs_fin in
       if Nat.eqb (count_true fi) 0 then inr (map (fun _ => None) freqs)   (* continue *)
       else match extract_for rc with
            | inl er => inl er
            | inr e =>
-               inr (scatter fi (bipole i (depth_of e) (cond_h_of e) (cond_v_of e)
+               inr (scatter fi (bipole i (rec_abs srcc rc) (depth_of e) (cond_h_of e) (cond_v_of e)
                                        (eperm_of e) (mperm_of e) (select fi freqs)))
            end.
 
-    Fixpoint fwd_rows (i : nat) (recs : list ((F * F) * option (list bool)))
+    Fixpoint fwd_rows (i : nat) (recs : list (rcv * option (list bool)))
       : xerr + list (list (option D)) :=
       match recs with
       | [] => inr []
@@ -335,7 +356,7 @@ Section Layered.
       end.
     (* layered(inp) with gradient=False; [observed] = None or the finite flags
        per receiver *)
-    Definition layered_fwd (rcs : list (F * F)) (observed : option (list (list bool)))
+    Definition layered_fwd (rcs : list rcv) (observed : option (list (list bool)))
       : xerr + list (list (option D)) :=
       fwd_rows 0 (map (fun t => (fst t, match observed with
                                          | Some o => Some (nth (snd t) o [])
@@ -403,26 +424,28 @@ Section Layered.
     Variable ellipse : F * F -> F * F -> Z -> Z -> bool.
     Variable method : string.
     Variable has_radius merge : bool.
-    Variable srcc : F * F.
+    Variable srcc : pt3.
     Variable freqs : list F.
-    Variable bipole : nat -> list F -> list F -> option (list F) ->
+    Variable bipole : nat -> pt3 -> list F -> list F -> option (list F) ->
                       option (list F) -> option (list F) -> list F -> list cx.
 
-    (* per receiver: centre, finite flags, observed, weights, residual (all frequencies) *)
+    (* per receiver: receiver, finite flags, observed, weights, residual (all frequencies) *)
     Definition rdata : Type :=
-      ((F * F) * list bool * list cx * list F * list cx)%type.
+      (rcv * list bool * list cx * list F * list cx)%type.
 
-    (* what one receiver adds to (out[0], out[2]); None = `continue` *)
-    Definition grad_rec (i : nat) (rd : rdata)
+    (* what one receiver adds to (out[0], out[2]); None = `continue`.
+       [gmerge] is the merge flag handed to extract_1d: layered() sets
+       lopts['merge'] = False when gradient (one value per MODEL layer). *)
+    Definition grad_rec (gmerge : bool) (i : nat) (rd : rdata)
       : xerr + option ((Z -> Z -> F) * list F * option (list F)) :=
       let '(rc, fi, obsd, wgtd, resd) := rd in
       if Nat.eqb (count_true fi) 0 then inr None
-      else match extract_for g lname props ellipse method has_radius merge srcc rc with
+      else match extract_for g lname props ellipse method has_radius gmerge srcc rc with
            | inl er => inl er
            | inr e =>
                let ch := cond_h_of backward e in
                let cv := cond_v_of backward vti e in
-               let call := fun a b => bipole i (depth_of e) a b
+               let call := fun a b => bipole i (rec_abs srcc rc) (depth_of e) a b
                                         (eperm_of vti has_mu has_eps e)
                                         (mperm_of vti has_mu e) (select fi freqs) in
                let obs := select fi obsd in
@@ -436,22 +459,22 @@ Section Layered.
            end.
 
     (* the receiver loop: out[0] += imat x gh; if vti: out[2] += imat x gv *)
-    Fixpoint grad_loop (i : nat) (rds : list rdata)
+    Fixpoint grad_loop (gmerge : bool) (i : nat) (rds : list rdata)
              (out : (Z -> Z -> Z -> F) * (Z -> Z -> Z -> F))
       : xerr + ((Z -> Z -> Z -> F) * (Z -> Z -> Z -> F)) :=
       match rds with
       | [] => inr out
       | rd :: t =>
-          match grad_rec i rd with
+          match grad_rec gmerge i rd with
           | inl er => inl er
-          | inr None => grad_loop (Datatypes.S i) t out
+          | inr None => grad_loop gmerge (Datatypes.S i) t out
           | inr (Some (im, gh, gv)) =>
               let o0 := add3 (fst out) (spread im gh) in
               let o2 := match gv with
                         | Some v => add3 (snd out) (spread im v)
                         | None => snd out
                         end in
-              grad_loop (Datatypes.S i) t (o0, o2)
+              grad_loop gmerge (Datatypes.S i) t (o0, o2)
           end
       end.
     (* layered(inp) with gradient=True: (out[0], out[2]); out[1] stays zero.
@@ -460,7 +483,14 @@ Section Layered.
       : xerr + ((Z -> Z -> Z -> F) * (Z -> Z -> Z -> F)) :=
       match inputs with
       | None => inr (zero3, zero3)
-      | Some rds => grad_loop 0 rds (zero3, zero3)
+      | Some rds => grad_loop false 0 rds (zero3, zero3)
+      end.
+    (* UNFIXED variant (before the repair): merge from layered_opts passed on *)
+    Definition layered_grad_unfixed (inputs : option (list rdata))
+      : xerr + ((Z -> Z -> Z -> F) * (Z -> Z -> Z -> F)) :=
+      match inputs with
+      | None => inr (zero3, zero3)
+      | Some rds => grad_loop merge 0 rds (zero3, zero3)
       end.
   End OneSourceGrad.
 End Layered.
